@@ -371,6 +371,15 @@ def check(ctx, want="C12"):
             j = make_job(ctx, proto, [2, 3, 1, 4][k % 4], ctx.seed * 1000 + 500 + k, 40 if thorough else 24)
             j["mirror"] = mode
             jobs.append(j)
+    # mirroring switched on after the templates were learnt (start-up window, templates from the cache file), exporters as the
+    # default wildcard socket reports them (IPv4-mapped, 16 octets) and as an IPv4 socket does (4 octets)
+    for k, form in enumerate(["mapped", "plain"]):
+        j = make_job(ctx, "ipfix", 2, ctx.seed * 1000 + 520 + k, 24)
+        j["mirror"], j["mirror_late"] = "on", True
+        if form == "mapped":
+            for m in j["templates"] + j["data"]:
+                m["exp"] = [0] * 10 + [255, 255] + list(m["exp"])
+        jobs.append(j)
     for i, j in enumerate(jobs):
         j["id"] = i
     with concurrent.futures.ThreadPoolExecutor(max_workers=8) as ex:
